@@ -98,6 +98,7 @@ class Obligation:
     seconds: float = 0.0
     model: dict = field(default_factory=dict)
     expect: str = "unsat"  # "unsat" (must hold) | "sat" (vacuity canary / cover: must be satisfiable)
+    depends: tuple = ()    # oids of hint obligations whose goals were assumed for this one
 
 
 class Ctx:
@@ -124,14 +125,22 @@ class Ctx:
 
 
 class Vars:
+    """current values of the local variables as seen by invariants (concrete lists are shown as symbolic lists)"""
+    types = {}
+
     def __init__(self, env):
         self._env = env
 
     def __getattr__(self, name):
         try:
-            return self._env[name]
+            v = self._env[name]
         except KeyError:
             raise AttributeError(name)
+        if isinstance(v, list) and all(not isinstance(x, (list, tuple, dict)) for x in v):
+            ty = Vars.types.get(name)
+            if v or ty is not None:
+                return list_from_concrete(v, ty.elem if ty is not None else None)
+        return v
 
 
 # ----------------------------------------------------------------------------------------------
@@ -151,23 +160,34 @@ class Engine:
         self.guard_stack = []
 
     # ------------------------------------------------------------------ obligations
-    def emit(self, kind, label, st, goal, note="", expect="unsat", hyps_extra=(), split=True):
+    def emit(self, kind, label, st, goal, note="", expect="unsat", hyps_extra=(), split=True, depends=()):
         con = self.current[0]
         if isinstance(goal, SV):
             goal = goal.t
         if isinstance(goal, bool):
             goal = z3.BoolVal(goal)
         if expect == "unsat" and z3.is_and(goal) and goal.num_args() > 1 and split:
-            obs = [self.emit(kind, f"{label}.{i}", st, g, note, expect, hyps_extra) for i, g in enumerate(goal.children())]
+            obs = [self.emit(kind, f"{label}.{i}", st, g, note, expect, hyps_extra, depends=depends) for i, g in enumerate(goal.children())]
             return obs[0]
         oid = f"{con.target}/{kind}[{label}]"
         n = sum(1 for o in self.obligations if o.oid == oid or o.oid.startswith(oid + "#"))
         if n:
             oid = f"{oid}#{n}"
         ob = Obligation(oid=oid, kind=kind, hyps=tuple(st.pc) + tuple(self.guard_stack) + tuple(hyps_extra), goal=goal, target=con.target,
-                        probes=dict(self.current_probes), note=note, expect=expect)
+                        probes=dict(self.current_probes), note=note, expect=expect, depends=tuple(depends))
         self.obligations.append(ob)
         return ob
+
+    def emit_with_hints(self, kind, label, st, goal, hints, note=""):
+        """prove each hint from the path condition and the earlier hints, then the goal from all of them"""
+        extra, deps = [], []
+        for n_, h in enumerate(hints):
+            if isinstance(h, SV):
+                h = h.t
+            ob = self.emit("hint", f"{label}.h{n_}", st, h, hyps_extra=tuple(extra), split=False, depends=tuple(deps))
+            deps.append(ob.oid)
+            extra.append(h)
+        return self.emit(kind, label, st, goal, note=note, hyps_extra=tuple(extra), depends=tuple(deps))
 
     def assume_here(self, st, cond):
         """add a fact that holds at the current evaluation point (under the guards of enclosing and/or/if-expressions)"""
